@@ -255,7 +255,7 @@ def writerWaiting (s : MS) : Bool :=
   s.cpc == .wantLock || s.cpc == .wantRelock || s.handle > 0 || s.chk.any fun p => p.2 == .wantAdd
 
 def internalEvs (v : Ver) (s : MS) : List Ev :=
-  (if v = .v0a ∨ v = .v1a then [.relFlush] else []) ++ [.lockCommit, .relockCommit, .handleRecheck] ++
+  [.lockCommit, .relockCommit, .handleRecheck] ++
     (s.chk.map fun p => Ev.addCheck p.1) ++
     (if writerWaiting s then [] else s.chk.map fun p => Ev.prelude p.1)
 
